@@ -12,7 +12,7 @@ L=/tmp/mutlane$N; R=$L/repo; H=$L/harness; T=/verif/target/mutlane$N
 case "$CMD" in
 init)
   mkdir -p $L/out $L/results $L/p
-  rsync -a --delete --exclude target --exclude .git /repo/ $R/
+  rsync -a --no-times --checksum --delete --exclude target --exclude .git /repo/ $R/   # no mtime reset: a file reverted after a patched build must stay newer than that build
   ( cd $R && { [ -d .git ] || git init -q; } && git add -A >/dev/null 2>&1 && git -c user.email=x@x -c user.name=x commit -qm sync >/dev/null 2>&1 )
   rm -rf $H && mkdir -p $H && git -C /verif archive HEAD harness | tar -x -C $L
   sed "s|\"/repo/|\"$R/|g" /verif/harness/Cargo.toml > $H/Cargo.toml
